@@ -139,7 +139,35 @@ func (in *inliner) findTables(pk *packages.Package, file *ast.File) []unrollSite
 					continue
 				}
 				var lit *ast.CompositeLit
-				switch d := list[i-1].(type) {
+				// the declaration: the statement just before, or further up with only plain variable declarations
+				// (no initialiser that could observe or disturb anything) in between
+				di := i - 1
+				for di > 0 {
+					ds, isDecl := list[di].(*ast.DeclStmt)
+					if !isDecl {
+						break
+					}
+					gd, isGen := ds.Decl.(*ast.GenDecl)
+					plain := isGen && gd.Tok == token.VAR
+					if plain {
+						for _, sp := range gd.Specs {
+							if vs, ok := sp.(*ast.ValueSpec); !ok || len(vs.Values) != 0 {
+								plain = false
+							} else {
+								for _, nm := range vs.Names {
+									if info.Defs[nm] == tobj {
+										plain = false
+									}
+								}
+							}
+						}
+					}
+					if !plain {
+						break
+					}
+					di--
+				}
+				switch d := list[di].(type) {
 				case *ast.AssignStmt:
 					if d.Tok == token.DEFINE && len(d.Lhs) == 1 && len(d.Rhs) == 1 {
 						if id, ok := d.Lhs[0].(*ast.Ident); ok && info.Defs[id] == tobj {
@@ -165,7 +193,7 @@ func (in *inliner) findTables(pk *packages.Package, file *ast.File) []unrollSite
 				if uses != 1 {
 					continue
 				}
-				site.lit, site.decl = lit, list[i-1]
+				site.lit, site.decl = lit, list[di]
 			default:
 				continue
 			}
@@ -307,6 +335,7 @@ func (in *inliner) unroll(pk *packages.Package, file *ast.File, s unrollSite) ([
 	// rows: field name → expression text (struct) or "" → text (scalar)
 	type row map[string]string
 	var rows []row
+	prelude := ""
 	for _, el := range s.lit.Elts {
 		r := row{}
 		if isStruct {
@@ -329,9 +358,6 @@ func (in *inliner) unroll(pk *packages.Package, file *ast.File, s unrollSite) ([
 					}
 					name = st.Field(i).Name()
 				}
-				if !pureStable(info, val, modified) {
-					return nil, false
-				}
 				var ft types.Type
 				for k := 0; k < st.NumFields(); k++ {
 					if st.Field(k).Name() == name {
@@ -344,6 +370,14 @@ func (in *inliner) unroll(pk *packages.Package, file *ast.File, s unrollSite) ([
 				ts, okT := in.typeString(ft, pk, file)
 				if !okT {
 					return nil, false
+				}
+				if !pureStable(info, val, modified) {
+					// evaluated once, where the table was built: a temporary declared in front of the copies, in row order
+					in.counter++
+					tmp := fmt.Sprintf("uˑ%d", in.counter)
+					prelude += fmt.Sprintf("var %s %s = %s; _ = %s; ", tmp, ts, in.text(val), tmp)
+					r[name] = tmp
+					continue
 				}
 				r[name] = ts + "(" + in.text(val) + ")"
 			}
@@ -416,7 +450,7 @@ func (in *inliner) unroll(pk *packages.Package, file *ast.File, s unrollSite) ([
 	src := in.content(fname)
 	bodyStart, bodyEnd := in.off(rs.Body.Lbrace)+1, in.off(rs.Body.Rbrace)
 	var b strings.Builder
-	b.WriteString("{ ")
+	b.WriteString("{ " + prelude)
 	for k, r := range rows {
 		in.counter++
 		label := fmt.Sprintf("Uˑ%d", in.counter)
